@@ -4,15 +4,15 @@ CONSTANTS
   FunRels = {"actionnext", "beads", "xrefprev", "xrefstmprev", "xrefstm", "extends", "length", "refchain", "refcontents", "refkids", "refannots", "pageparent", "fieldparent", "colorspace", "function", "smask", "irt"}
   MaxN = 3
   SymN = 3
-  GraphMod = 6
+  GraphMod = 5
   Decors = {"none", "dangling", "wrong", "null", "direct"}
-  DecorMod = 6
+  DecorMod = 7
   FunMod = 5
   OutTrees = {23}
-  OutTreeMod = 120
+  OutTreeMod = 119
   OutlineNs = {1, 2}
-  Outline1Mod = 9
-  OutlineMod = 96
+  Outline1Mod = 7
+  OutlineMod = 97
   DepthRels = {"pagetree", "fields", "structtree", "nametree", "numtree", "xobjects", "actionnext", "beads", "xrefprev", "extends", "length", "refchain", "pageparent", "fieldparent", "colorspace", "function", "smask", "irt", "outlinefirst", "outlinenext"}
   SynKinds = {"array", "dict", "mixed", "parens", "contentarray", "contentq", "contentdict"}
   Limit = 100
@@ -23,7 +23,7 @@ CONSTANTS
   MutK = 12
   PdfBases = {"classic", "objstm", "encrypted"}
   PdfK = 2
-  PdfMod = 14
+  PdfMod = 13
   TruncK = 12
   Seed = 1
   Emit = TRUE
